@@ -280,6 +280,25 @@ pub fn mutate_file(rng: &mut Rng, src: &[u8]) -> Vec<u8> {
     lines.join(&b'\n')
 }
 
+/// records sharing a physical line: a class record ends at its ':' and a sourceFile header at its '}', so
+/// whatever follows on the same line is the next record. Drops the terminator after such lines (all of them
+/// when `all`, else each with probability 1/2).
+pub fn join_records(rng: &mut Rng, src: &[u8], all: bool) -> Vec<u8> {
+    let mut out = Vec::with_capacity(src.len());
+    let mut i = 0;
+    while i < src.len() {
+        let b = src[i];
+        if (b == b'\n' || b == b'\r') && i > 0 && (src[i - 1] == b':' || src[i - 1] == b'}') && (all || rng.chance(1, 2)) {
+            // the whole terminator (CRLF counts as one)
+            i += if b == b'\r' && src.get(i + 1) == Some(&b'\n') { 2 } else { 1 };
+            continue;
+        }
+        out.push(b);
+        i += 1;
+    }
+    out
+}
+
 use proguard::{ProguardMapping, ProguardRecord};
 use serde_json::{json, Value};
 
